@@ -101,6 +101,21 @@ func (s *st) newLit(ty *m.Type) m.Expr {
 	panic("newLit")
 }
 
+// need returns a variable of the type, declaring one when the history has none yet
+func (s *st) need(ty *m.Type) (*m.Var, bool) {
+	if v, ok := s.pick(ty); ok {
+		return v, true
+	}
+	n := s.fresh()
+	if ty.K == m.Any {
+		s.out = append(s.out, &m.Decl{Name: n, Ty: ty, Typed: true})
+		s.vars = append(s.vars, vinfo{n, ty})
+	} else {
+		s.declare(n, ty, s.newLit(ty))
+	}
+	return &m.Var{Name: n, Ty: ty}, true
+}
+
 func (s *st) declare(name string, ty *m.Type, init m.Expr) {
 	s.out = append(s.out, &m.Decl{Name: name, Ty: ty, Init: init})
 	s.vars = append(s.vars, vinfo{name, ty})
@@ -407,7 +422,7 @@ func (s *st) step() {
 			for j := 0; j < nsinks; j++ {
 				switch rapid.IntRange(0, 4).Draw(s.t, "sink") {
 				case 0:
-					if a, ok := s.pick(tStrs); ok && a.Name != v.Name {
+					if a, ok := s.need(tStrs); ok && a.Name != v.Name {
 						s.made["loop-var-str:index-store"] = true
 						obs = append(obs, a)
 						sinks = append(sinks, &m.If{
@@ -416,19 +431,19 @@ func (s *st) step() {
 						})
 					}
 				case 1:
-					if mp, ok := s.pick(tMapS); ok && mp.Name != v.Name {
+					if mp, ok := s.need(tMapS); ok && mp.Name != v.Name {
 						s.made["loop-var-str:key-store"] = true
 						obs = append(obs, mp)
 						sinks = append(sinks, &m.Assign{Target: &m.Dot{X: mp, Key: "loop", Ty: m.TStr}, Val: ev})
 					}
 				case 2:
-					if a, ok := s.pick(m.TAny); ok {
+					if a, ok := s.need(m.TAny); ok {
 						s.made["loop-var-str:any"] = true
 						obs = append(obs, a)
 						sinks = append(sinks, &m.Assign{Target: a, Val: m.AsAny(ev)})
 					}
 				case 3:
-					if a, ok := s.pick(tStrs); ok && a.Name != v.Name {
+					if a, ok := s.need(tStrs); ok && a.Name != v.Name {
 						s.made["loop-var-str:concat"] = true
 						obs = append(obs, a)
 						sinks = append(sinks, &m.Assign{Target: a, Val: &m.Binary{Op: "+", L: a, R: &m.ArrLit{Ty: tStrs, Elems: []m.Expr{ev}}, Ty: tStrs}})
